@@ -5,7 +5,10 @@
            kernel writes (executor's output storage parameter / aggregate Output storage);
            (argument storages are not compared: bind() may legitimately rewrite/cast its inputs.)
            DataTypeId→PhysicalType and Storage→PhysicalType maps are read from the code, not restated.
-Not decided: return types computed dynamically in bind (decimals, lists), UNION unification."""
+  C18-ELIDE every conditional cast insertion in binder/planner (UNION branch casts, INSERT/VALUES casts, CASE, subquery
+           comparison, decimal comparison) is controlled by inequality of the full DataType / full type-meta, and the cast is on
+           the `differs` edge — comparing only DataTypeId would leave a branch producing Decimal(5,1) under an announced (6,2)
+Not decided: return types computed dynamically in bind (decimals, lists), which type UNION unification picks."""
 import re
 from .framework import RuleResult
 from .instwalk import InstDB, signature_of, resolve_const_expr, variant_of
@@ -189,6 +192,51 @@ def executor_calls(db, row, method="execute"):
     return out
 
 
+FULL_TYPES = ("glaredb_core::arrays::datatype::DataType", "glaredb_core::arrays::datatype::DecimalTypeMeta",
+              "glaredb_core::arrays::datatype::TimestampTypeMeta", "glaredb_core::arrays::datatype::ListTypeMeta")
+CAST_CTORS = ("glaredb_core::expr::cast", "CastExpr::new", "cast_expr::CastExpr::try_new")
+
+
+def rule_elide(facts):
+    """Binder/planner code that inserts a cast only when `have != need` decides whether the produced arrays carry the announced
+    type. The comparison has to be on the full DataType (id + precision/scale/unit/element type): comparing DataTypeId (or any
+    other projection) elides the cast between Decimal(6,2) and Decimal(5,1), and the branch then produces arrays whose type
+    differs from the announced schema. The cast must also sit on the `differs` edge."""
+    from .mir import controlling_calls
+    r = RuleResult("C18-ELIDE", "every conditional cast insertion is controlled by a full DataType (or full type-meta) inequality, on the "
+                   "differs edge", floor=8)
+    for rec in facts.all_fns(["glaredb_core"]):
+        s = str(rec["bbs"])
+        if "expr::cast" not in s and "CastExpr" not in s:
+            continue
+        fn = Fn(rec)
+        for c in fn.calls():
+            if not (c.name == CAST_CTORS[0] or c.name.endswith(CAST_CTORS[1]) or c.name.endswith(CAST_CTORS[2])):
+                continue
+            cmps = [(x, tr) for x, tr in controlling_calls(fn, c.bb) if x.name.endswith("::eq") or x.name.endswith("::ne")]
+            if not cmps:
+                continue
+            r.functions.add(fn.id)
+            r.call_sites += 1
+            for x, truth in cmps:
+                tys = [a.lstrip("&") for a in (x.callee.get("res_args") or x.callee.get("args") or [])][:2]
+                if not any("datatype::" in t_ for t_ in tys):
+                    continue          # a comparison about something else (lengths, names)
+                differs_edge = (x.name.endswith("::ne") and truth) or (x.name.endswith("::eq") and not truth)
+                full = all(t_ in FULL_TYPES for t_ in tys)
+                ok = full and differs_edge
+                r.inst({"fn": fn.id, "line": c.line, "compares": tys[0].rsplit("::", 1)[-1] if tys else "?", "cast_on_differs_edge": differs_edge}, ok)
+                if not full:
+                    r.violate(fn.id, "cast-elision:" + (tys[0].rsplit("::", 1)[-1] if tys else "?"),
+                              f"the cast at line {c.line} is skipped when two `{tys[0].rsplit('::', 1)[-1] if tys else '?'}` values are equal; only equality "
+                              "of the full DataType guarantees the operand already has the announced type (precision/scale, unit, element type)",
+                              rec["file"], x.line)
+                elif not differs_edge:
+                    r.violate(fn.id, "cast-on-equal-edge", f"the cast at line {c.line} is built on the edge where the types are equal; the differing "
+                              "case keeps the original type", rec["file"], x.line)
+    return r
+
+
 def run(ctx):
     facts = ctx["facts"]
     consts = {c["id"]: c for c in facts.records("const")}
@@ -255,6 +303,7 @@ def run(ctx):
             r.violate(row["const"] + f"#{row['ord']}", c, why + f" [{row['impl_ty'].replace('glaredb_core::', '')}]", row["file"], row["line"])
     r.notes.append(f"{dyn} rows compute their return type in bind (dynamic): only the storage family is compared for them")
     res.append(r)
+    res.append(rule_elide(facts))
     return res
 
 
